@@ -26,14 +26,14 @@ TECHNIQUE = (
     "raise point x every handler, each rendered on the real code and compared with a try/finally reference interpreter"
 )
 RULE = (
-    "Programs: every statement tree of the C13 grammar (text, % try/% except Boom, % for with loop, a def declared and "
+    "Programs: every statement tree of the C13 grammar (text, % try/% except Boom, % for with loop, % for without loop, a def declared and "
     "called [flags: every subset of buffered/filter/cached/decorator without cached+decorator; forms ${d(A)}, "
     "${capture(d, A)}, <%call expr=d(A)> with content; top-level or nested], <%call> of a Python function under "
     "supports_caller, <%text filter>, <%include>, two-level inherit, ${CB(caller)}) in the families F1 = weight<=W1 with "
     "weight = nodes + def modifiers (each flag, nested, capture); F2 = nodes<=W2 with every flag subset at no extra cost; "
-    "F3 (thorough) = nodes==W3 with <=1 flag per def; FT = every F2-shaped program of WT nodes with one stateful statement "
+    "F3 (thorough) = nodes==W3 with <=1 flag per def over text/try/for/call/py/include/inherit; FT = every F2-shaped program of WT nodes with one stateful statement "
     "(at any depth, one at a time) wrapped in % try. Families are made disjoint (F2,F3,FT minus F1 ...). The finaliser "
-    "inserts a probe before/after every statement and in every argument list, def/text filter, decorator (before and "
+    "inserts a probe before/after every statement and in every argument list, % for iterable expression, def/text filter, decorator (before and "
     "after the call), cached body and supports_caller function, and observers of loop/caller/a fresh def call after "
     "every % try. Case = (program, include_error_handler off/True/False, set of armed probes: none, each single probe, "
     "each pair for programs of weight<=WP); canonical = printed files + armed set; cases whose armed probes do not all "
@@ -99,6 +99,7 @@ def modweight(x):
     return 0
 
 
+F3_KINDS = ("text", "try", "for", "call", "inc", "inh", "py")  # F3 and the quick FT source: without the leaves cb, textf and plain loops
 _GRAMMARS = {}
 
 
@@ -110,7 +111,7 @@ def grammar(fam):
         elif fam == "F2":
             g = ir.Grammar(ir.ALL_FLAGS)
         elif fam == "F3":
-            g = ir.Grammar(ir.SINGLE_FLAGS)
+            g = ir.Grammar(ir.SINGLE_FLAGS, kinds=F3_KINDS)
         _GRAMMARS[fam] = g
     return g
 
